@@ -51,7 +51,11 @@ Newest(s, p) == Last(s.pubs[p])
 
 (* token carried by the publication of p at time t: the initial value is   *)
 (* published for the composition start and the producer's own start        *)
-Tok(cfg, p, t) == cfg.tb * p + (IF t < cfg.comps[p].off THEN cfg.comps[p].off ELSE t)
+(* a relay (finam's TimeTrigger) publishes at time t what it pulled for t from its only source, *)
+(* a pull-based generator (value = token of the requested time)                                *)
+IsRelay(cfg, p) == "relay" \in DOMAIN cfg.comps[p] /\ cfg.comps[p].relay
+OwnTok(cfg, p, t) == cfg.tb * p + (IF t < cfg.comps[p].off THEN cfg.comps[p].off ELSE t)
+Tok(cfg, p, t) == IF IsRelay(cfg, p) THEN OwnTok(cfg, cfg.comps[p].ins[1].src, t) ELSE OwnTok(cfg, p, t)
 
 ---------------------------------------------------------------------------
 (* Delay adapters (DelayFixed / DelayToPull / DelayToPush) *)
